@@ -184,7 +184,7 @@ func validateFlags() []error {
 	}
 
 	// We limit qps to < 1000 to ensure we don't overload Spanner accidentally.
-	if *qps <= 0 || *qps > 1000 {
+	if !(*qps > 0) || *qps > 1000 { // also rejects NaN
 		errs = append(errs, fmt.Errorf("qps must be 1 <= qps <= 1000, was %v", *qps))
 	}
 
